@@ -950,6 +950,8 @@ func (r *Request) SetBody(body interface{}) *Request {
 	if body == nil {
 		return r
 	}
+	// the last body setter wins: nothing of an earlier body (a value to marshal, a reader) stays behind
+	r.marshalBody, r.unReplayableBody = nil, nil
 	switch b := body.(type) {
 	case io.ReadCloser:
 		r.unReplayableBody = b
@@ -983,6 +985,9 @@ func (r *Request) SetBody(body interface{}) *Request {
 
 // SetBodyBytes set the request Body as []byte.
 func (r *Request) SetBodyBytes(body []byte) *Request {
+	// the last body setter wins (see SetBody); handleMarshalBody, which stores the marshalled
+	// bytes through this setter, keeps its value
+	r.marshalBody, r.unReplayableBody = nil, nil
 	r.Body = body
 	r.GetBody = func() (io.ReadCloser, error) {
 		return io.NopCloser(bytes.NewReader(body)), nil
